@@ -19,6 +19,7 @@
   a zero duration), the lexical round trip of numbers / strings / durations, and "never panics" (direct oracle only).
 -/
 import SH.Model.PromSyntax
+import SH.Lemmas.PromSyntaxSound
 set_option linter.unusedSimpArgs false
 namespace SH.Props.C28
 open SH.PromSyntax
@@ -118,7 +119,7 @@ theorem parseMatcherList_print (ms : List Matcher) (hl : ms ≠ []) (rest : List
       have ih' := ih (by simp) f (by simp at hf ⊢; omega)
       rw [List.map_cons, sepBy_cons_ne _ _ _ (by simp)]
       generalize hR : sepBy Tok.comma (List.map printMatcher (y :: ys)) ++ Tok.rk :: rest = R at ih'
-      have hRw : ∃ R', R = Tok.word .ident y.name :: R' := by
+      have hRw : ∃ R', R = Tok.lname y.name :: R' := by
         subst hR
         cases ys with
         | nil => exact ⟨_, rfl⟩
@@ -431,7 +432,7 @@ theorem selHead_parse (s : Sel) (hok : okSel s = true) (F : Nat) (R : List Tok)
   | cons m ms =>
     rw [hsh] at hF
     have hml := parseMatcherList_print (m :: ms) (by simp) R F (by simp at hF ⊢; omega)
-    have hhead : ∃ X, sepBy Tok.comma (List.map printMatcher (m :: ms)) ++ Tok.rk :: R = Tok.word .ident m.name :: X := by
+    have hhead : ∃ X, sepBy Tok.comma (List.map printMatcher (m :: ms)) ++ Tok.rk :: R = Tok.lname m.name :: X := by
       cases ms with
       | nil => exact ⟨_, rfl⟩
       | cons z zs => rw [List.map_cons, sepBy_cons_ne _ _ _ (by simp)]; exact ⟨_, rfl⟩
@@ -545,10 +546,6 @@ def startOk (sign : Bool) : List Tok → Bool
   | .lk :: _ => true
   | .sym .add :: _ => sign
   | .sym .sub :: _ => sign
-  | _ => false
-
-def isVec : Expr → Bool
-  | .vec _ => true
   | _ => false
 
 theorem metricIdent_not_mod (n : String) (h : isMetricIdent (.kw n) = true) : modKws.contains n = false := by
@@ -1101,6 +1098,104 @@ theorem normSel_idem (s : Sel) : normSel (normSel s) = normSel s := by
   by_cases hn : s.name = ""
   · simp [normSel, hn]
   · simp [normSel, hn, List.filter_append, List.filter_filter]
+
+/-! ## the property's own statement: every expression the parser ACCEPTS prints to text that parses back -/
+
+/-- For every token stream the lexer can produce (`tokOk`: word kinds agree with the lexer's classification of their text,
+    and — the one exclusion, known finding zero-duration — no duration token of 0 seconds) and every tree the parser
+    accepts on it, printing the tree and parsing the printed tokens yields the same tree up to `norm`
+    (SH.Lemmas.PromSyntaxSound.parse_wf discharges the well-formedness hypothesis of `parse_print`). -/
+theorem accepted_roundtrip (ts : List Tok) (e : Expr) (hok : ∀ t ∈ ts, tokOk t = true) (h : parse ts = some e) :
+    parse (printExpr .fixed e) = some (norm e) :=
+  parse_print e (SH.PromSyntax.Sound.parse_wf ts e hok h)
+
+/-- the exclusion is needed: `foo[0s400ms]` lexes to a duration token of 0 seconds, is accepted, and its printed text
+    (`foo[0s]`, a duration parseDuration rejects) does not parse -/
+theorem zero_duration_needed :
+    let ts : List Tok := [.word .ident "foo", .lb, .dur (some 0), .rb]
+    ts.all tokOk = false ∧ parse ts = some (.mat ⟨"foo", [nameMatcher "foo"], .none, 0, []⟩ 0) ∧
+    parse (printExpr .fixed (.mat ⟨"foo", [nameMatcher "foo"], .none, 0, []⟩ 0)) = none := by decide
+
+/-- tokens of `sum by (job) (rate(foo{a="b",on=~"x"}[5m] offset 1m)) + -x ^ 2 and on () group_left y` -/
+def toks1 : List Tok :=
+  [kwTok "SUM", kwTok "BY", .lp, .word .ident "job", .rp, .lp, .word .ident "rate", .lp, .word .ident "foo", .lk,
+   .lname "a", .eql, .str "62" true true, .comma, .lname "on", .eqlre, .str "78" true true, .rk, .lb, .dur (some 300), .rb,
+   kwTok "OFFSET", .dur (some 60), .rp, .rp, .sym .add, .sym .sub, .word .ident "x", .sym .pow,
+   .word (.num (some "2") (some 2000) (some (-2000))) "2", kwTok "LAND", kwTok "ON", .lp, .rp, kwTok "GROUP_LEFT",
+   .word .ident "y"]
+
+example : toks1.all tokOk = true := by decide
+example : (parse toks1).isSome = true := by decide
+example : ∀ e, parse toks1 = some e → parse (printExpr .fixed e) = some (norm e) :=
+  fun e h => accepted_roundtrip toks1 e (by intro t ht; exact (List.all_eq_true.mp (by decide : toks1.all tokOk = true)) t ht) h
+
+/-! ## idempotence: `norm` is a normal form, printing does not see it, one round trip reaches the fixed point -/
+
+theorem shown_normSel (s : Sel) : shownMatchers .fixed (normSel s) = shownMatchers .fixed s := by
+  by_cases hn : s.name = ""
+  · simp [normSel, hn]
+  · simp [normSel, shownMatchers, hn, List.filter_append, List.filter_filter]
+
+theorem printSelHead_normSel (s : Sel) : printSelHead .fixed (normSel s) = printSelHead .fixed s := by
+  have h1 := shown_normSel s
+  have h2 := (normSel_fields s).1
+  simp only [printSelHead, h1, h2]
+
+mutual
+theorem norm_norm : (e : Expr) → norm (norm e) = norm e
+  | .num _ | .str _ => by simp [norm]
+  | .vec s => by simp [norm, normSel_idem]
+  | .mat s r => by simp [norm, normSel_idem]
+  | .sub x _ _ _ _ => by simp [norm, norm_norm x]
+  | .par x => by simp [norm, norm_norm x]
+  | .un _ x => by simp [norm, norm_norm x]
+  | .bin _ _ l r => by simp [norm, norm_norm l, norm_norm r]
+  | .agg _ _ _ a => by simp [norm, normArgs_normArgs a]
+  | .call _ a => by simp [norm, normArgs_normArgs a]
+theorem normArgs_normArgs : (a : Args) → normArgs (normArgs a) = normArgs a
+  | .nil => by simp [normArgs]
+  | .cons e r => by simp [normArgs, norm_norm e, normArgs_normArgs r]
+end
+
+mutual
+/-- the printer does not distinguish a tree from its normal form -/
+theorem print_norm : (e : Expr) → printExpr .fixed (norm e) = printExpr .fixed e
+  | .num _ | .str _ => by simp [norm]
+  | .vec s => by
+    obtain ⟨_, h2, h3, h4⟩ := normSel_fields s
+    simp only [norm, printExpr, printSel, printSelHead_normSel, h2, h3, h4]
+  | .mat s r => by
+    obtain ⟨_, h2, h3, h4⟩ := normSel_fields s
+    simp only [norm, printExpr, printMat, printSelHead_normSel, h2, h3, h4]
+  | .sub x _ _ _ _ => by simp only [norm, printExpr, print_norm x]
+  | .par x => by simp only [norm, printExpr, print_norm x]
+  | .un _ x => by simp only [norm, printExpr, print_norm x]
+  | .bin _ _ l r => by simp only [norm, printExpr, print_norm l, print_norm r]
+  | .agg _ _ _ a => by simp only [norm, printExpr, printArgs_norm a]
+  | .call _ a => by simp only [norm, printExpr, printArgs_norm a]
+theorem printArgs_norm : (a : Args) → printArgs .fixed (normArgs a) = printArgs .fixed a
+  | .nil => by simp [normArgs]
+  | .cons e .nil => by simp only [normArgs, printArgs, print_norm e]
+  | .cons e (.cons e' r') => by
+    have := printArgs_norm (.cons e' r')
+    simp only [normArgs] at this ⊢
+    rw [printArgs_cons2, printArgs_cons2, print_norm e, this]
+end
+
+/-- print ∘ parse ∘ print = print on accepted trees: the text printed for the re-parsed tree is the text printed first -/
+theorem print_parse_print (ts : List Tok) (e : Expr) (hok : ∀ t ∈ ts, tokOk t = true) (h : parse ts = some e) :
+    ∃ e', parse (printExpr .fixed e) = some e' ∧ printExpr .fixed e' = printExpr .fixed e :=
+  ⟨norm e, accepted_roundtrip ts e hok h, print_norm e⟩
+
+/-- after one round trip the tree is a fixed point of parse ∘ print -/
+theorem roundtrip_fixpoint (ts : List Tok) (e : Expr) (hok : ∀ t ∈ ts, tokOk t = true) (h : parse ts = some e) :
+    parse (printExpr .fixed (norm e)) = some (norm e) := by
+  rw [print_norm]; exact accepted_roundtrip ts e hok h
+
+example : ∃ e, parse toks1 = some e ∧ parse (printExpr .fixed (norm e)) = some (norm e) := by
+  cases h : parse toks1 with
+  | none => exact absurd h (by decide)
+  | some e => exact ⟨e, rfl, roundtrip_fixpoint toks1 e (fun t ht => (List.all_eq_true.mp (by decide : toks1.all tokOk = true)) t ht) h⟩
 
 /-! ## the tables regenerated from /repo are the ones the proofs were written against -/
 
